@@ -14,6 +14,22 @@ def chk(pid, level, text, note, technique, ref):
     }
 
 CHECKS = [
+    chk("C01", "model_checking",
+        "Per-detector layered G2 spaces (fields the detector governs, both operand orders, self-checks through gtxn/gtxns forms, "
+        "shuffled atoms) plus all G1 raw layouts: E1 explores every execution over all groups (size 1-16, own index anywhere, "
+        "region representatives of every field read); whenever some accepting run carries a detector's dangerous value, that "
+        "detector (run through init_tealer_from_single_contract) must report at least one path. All nine detectors are evaluated on every program.",
+        "Trusted: reference AVM. Unbound inputs count as carrying every value; application creation is not counted as update/delete.",
+        "explicit-state exploration of the concrete AVM over the region quotient of all inputs; existence of a dangerous accepting state implies a reported trace",
+        "DESIGN.md 3/C01"),
+    chk("C03", "model_checking",
+        "Direct-check programs of the per-detector G2 spaces: O2 explores the abstract per-value transition system (per field "
+        "independently), derives per block the exactly admitted values, and searches the matched call/return graph for a walk "
+        "from the entry to a terminating block through blocks that admit the dangerous value; when none exists the detector "
+        "must report no path.",
+        "Trusted: O2 evaluator. Two-field detectors: fields independent per block; multi-context blocks use context-insensitive sets.",
+        "explicit-state exploration of an abstract per-value reachability system; emptiness of the unvalidated-walk language implies an empty report",
+        "DESIGN.md 3/C03"),
     chk("C04", "model_checking",
         "Every G1 program (all raw instruction lists up to the tier's line bound, incl. dead code, back edges, "
         "branch/call last, branch to next line) is parsed; E1 explores every execution of the reference AVM over the "
@@ -40,6 +56,13 @@ CHECKS = [
         "Trusted: reference AVM, O2 evaluator (mc/abstract.py). Bounded program size; exactness only on the direct-check fragment.",
         "explicit-state exploration of the concrete AVM (all size/index pairs) and of an abstract per-value reachability system; invariant = tealer's per-block sets",
         "DESIGN.md 3/C06"),
+    chk("C07", "model_checking",
+        "Layered G2 spaces over TypeEnum/OnCompletion/ApplicationID atoms: E1 explores every accepting execution over all "
+        "(TypeEnum, OnCompletion, ApplicationID) valuations a real transaction can have and checks that Pay, Axfer, "
+        "ApplUpdateApplication, ApplDeleteApplication are listed by every block the run passes whenever the governed transaction is of that kind.",
+        "Trusted: reference AVM. Only the four kinds the property names are demanded; creation transactions are not counted as update/delete.",
+        "explicit-state exploration of the concrete AVM over all kind valuations; invariant = tealer's per-block kind sets",
+        "DESIGN.md 3/C07"),
     chk("C08", "model_checking",
         "Layered G2 spaces over address atoms of the four fields (==, != x both operand orders x ZeroAddress, two literals, "
         "CreatorAddress; shuffled variants for soundness): E1 checks that every accepting run's non-zero address is admitted "
